@@ -87,11 +87,16 @@ PhysTarget(m, req) ==
 \*   "reference" : the result is fixed completely (Resolve)
 \*   "traversal" : the request leaves the mapped roots: must be reported as not found
 \*   "contained" : the statement only fixes containment (".." inside the unmatched
-\*                 remainder; absolute physical path that lies inside a mapped root)
+\*                 remainder; absolute physical path that lies inside a mapped root;
+\*                 trailing separator(s): the request names a directory, not a file)
+TrailingSep(req) == Len(req.segs) > 0 /\ req.segs[Len(req.segs)] = ""
 Class(m, req, cur) ==
     IF req.base # "" THEN (IF PhysTarget(m, req) = "out" THEN "traversal" ELSE "contained")
     ELSE LET w == Walk(m, req, cur)
-         IN IF w.loose THEN "contained" ELSE IF w.esc THEN "traversal" ELSE "reference"
+         IN IF w.loose THEN "contained"
+            ELSE IF w.esc THEN "traversal"
+            ELSE IF TrailingSep(req) THEN "contained"
+            ELSE "reference"
 
 \* the observation an ideal implementation makes
 IdealObs(m, trees, req, cur) ==
